@@ -19,6 +19,8 @@ for c in mod.contracts(env):
             print(json.dumps(o.get('model'), default=str)[:1500])
             if n == 0:
                 open('/tmp/dbg.smt2', 'w').write(o.get('smt2') or '')
+                open('/tmp/dbg_z3.smt2', 'w').write(o.get('z3_smt2') or '')
+                print(o.get('attempts'))
                 print('smt2 -> /tmp/dbg.smt2')
             if c.replay and o.get('model'): print('replay:', c.replay(o['model']))
             n += 1
